@@ -665,7 +665,30 @@ func runHistory(h History) (obs []Obs, err string) {
 		}
 		cv := reflect.ValueOf(ctor)
 		if h.Ctor {
-			r.mocks = append(r.mocks, cv.Call([]reflect.Value{reflect.ValueOf(r.t)})[0])
+			// the generated constructor must only wire t: a panic (or any event on t) is an observation
+			var mv reflect.Value
+			msg := func() (m string) {
+				defer func() {
+					if rec := recover(); rec != nil {
+						m = "constructor: " + fmt.Sprint(rec)
+						if len(m) > 300 {
+							m = m[:300]
+						}
+					}
+				}()
+				mv = cv.Call([]reflect.Value{reflect.ValueOf(r.t)})[0]
+				return ""
+			}()
+			if msg == "" && len(r.events) > 0 {
+				msg = fmt.Sprintf("constructor: %d call(s) on t while constructing", len(r.events))
+			}
+			if msg != "" {
+				for range h.Steps {
+					obs = append(obs, Obs{Out: "panic", Class: "ctor", Msg: msg, Events: []event{}})
+				}
+				return obs, ""
+			}
+			r.mocks = append(r.mocks, mv)
 		} else {
 			r.mocks = append(r.mocks, reflect.New(cv.Type().Out(0).Elem()))
 		}
